@@ -16,6 +16,14 @@
 (*                                                                                          *)
 (* Programs: "R" read, "W" write, "TR" try_read, "TW" try_write, "A" access through the     *)
 (* guard (read under a read guard, read-modify-write under a write guard), "U" drop.        *)
+(*                                                                                          *)
+(* Payload access rule assumed by this model (type-level obligations, checked statically   *)
+(* against the real crate, table in SyncTrace.tla): AccessRead steps of several threads     *)
+(* interleave freely while read guards coexist - the model treats concurrent reads as       *)
+(* harmless, which is true only for a payload that is Sync.  Hence RwLock<T>: Sync needs    *)
+(* T: Send + Sync (RwLock<Cell<_>> must NOT be Sync), RwLock<T>: Send needs T: Send; the    *)
+(* guards are never Send (dropped by the acquiring thread) and Sync only if T: Sync.        *)
+(* Same as std::sync.                                                                       *)
 EXTENDS Machine, TLC
 
 CONSTANTS N, Progs, Ord, MaxSpur, MaxEintr, MaxWeak
